@@ -31,7 +31,8 @@ Record st := { cache : list nat;                (* object ids in order of record
                table : list (nat * var);        (* var_lookup, insertion order *)
                roots : list vref;               (* references handed to the root parent *)
                queue : list node;
-               stopped : bool }.
+               stopped : bool;
+               log : list (nat * nat) }.        (* ghost: (id, depth) of every variable in recording order *)
 
 Fixpoint index_of (o : nat) (l : list nat) (i : nat) : option nat :=
   match l with [] => None | x :: r => if Nat.eqb x o then Some i else index_of o r (S i) end.
@@ -91,16 +92,17 @@ Definition step (fifo : bool) (c : cfg) (h : heap) (s : st) : st :=
   | None => s
   | Some (n, q) =>
     if (max_vars c <? length (cache s))%nat
-    then {| cache := cache s; table := table s; roots := roots s; queue := []; stopped := true |}
+    then {| cache := cache s; table := table s; roots := roots s; queue := []; stopped := true; log := log s |}
     else
       let r := fun v => {| r_vid := v; r_name := n_name n; r_orig := n_orig n |} in
       match lookup_cache (cache s) (n_oid n) with
       | Some v => let '(t, rs) := attach (table s) (roots s) (n_par n) (r v) in
-                  {| cache := cache s; table := t; roots := rs; queue := q; stopped := false |}
+                  {| cache := cache s; table := t; roots := rs; queue := q; stopped := false; log := log s |}
       | None => let v := S (length (cache s)) in
                 let '(t, rs) := attach (table s ++ [(v, record_var c h (n_oid n))]) (roots s) (n_par n) (r v) in
                 {| cache := cache s ++ [n_oid n]; table := t; roots := rs;
-                   queue := q ++ children_of c h (n_oid n) (n_depth n) v; stopped := false |}
+                   queue := q ++ children_of c h (n_oid n) (n_depth n) v; stopped := false;
+                   log := log s ++ [(v, n_depth n)] |}
       end
   end.
 
@@ -121,7 +123,7 @@ Definition collect_root (fuel : nat) (fifo : bool) (c : cfg) (h : heap) (a : acc
   | Some v => (a, tbl, Some v)
   | None =>
       let s := run fuel fifo c h {| cache := a_cache a; table := tbl; roots := []; queue := [root_node name o];
-                                    stopped := false |} in
+                                    stopped := false; log := [] |} in
       ({| a_cache := cache s; a_table := a_table a; a_ok := a_ok a && finished s |}, table s,
        lookup_cache (cache s) o)
   end.
